@@ -240,6 +240,7 @@ def main():
         for r in rows:
             if r["outcome"] == "survived" and r.get("killed_by_sibling"):
                 r["outcome"] = "sibling"
+    Path(out).parent.mkdir(parents=True, exist_ok=True)
     Path(out).write_text(json.dumps(rows, indent=1))
     tot = len(rows)
     k = sum(1 for r in rows if r["outcome"] == "killed")
